@@ -306,9 +306,11 @@ def check_filter_sequence(ctx, case):
     dsw = import_dsw()
     k = case["k"]
     kmers = ["".join(t) for t in itertools.product("ACGT", repeat=k)]
+    from props.C12 import ref_valid
     f = dsw.LocalBioFilter(observed_length=k, max_homopolymer_runs=case["run0"], gc_range=case["gc"], undesired_motifs=[])
+    cfg = dict(k=k, run=case["run0"], gc=None if case["gc"] is None else [str(x) for x in case["gc"]], motifs=[])
     for stage in range(3):
-        want = [bool(f.valid(s)) for s in kmers]
+        want = [ref_valid(cfg, s, False)[0] for s in kmers]      # independent predicate for the settings as they are now
         out = monitored(dsw.find_vertices, 400 * 4 ** k + 5000, k, f)
         if not any(want):
             if out.kind == "ok":
@@ -319,8 +321,10 @@ def check_filter_sequence(ctx, case):
             break
         if stage == 0:
             f.max_homopolymer_runs = case["run1"]
+            cfg["run"] = case["run1"]
         elif stage == 1:
             f.undesired_motifs.append(case["motif"])
+            cfg["motifs"] = cfg["motifs"] + [case["motif"]]
     ctx.cls("filter object edited between calls")
     ctx.done("filter_sequence", case, True)
 
